@@ -12,6 +12,7 @@ from __future__ import annotations
 import ast
 
 from ..astutil import AnalysisError, dotted, src, walk_local, norm
+from .. import pattern as P
 
 MODS = {
     "cohdl/_core/_unsigned.py": "Unsigned",
@@ -62,6 +63,42 @@ def helper_idiom(fn: ast.AST) -> str | None:
     return None
 
 
+def operand_roles(fn: ast.AST) -> dict:
+    """role of every local / parameter of an arithmetic method, whatever it is called:
+         "S" - computed from self (self.to_int(), self._val ...),  "O" - computed from the other operand (the
+         method's parameter),  "P0"/"P1" - positional parameter of a free function (cohdl.op).
+    A name assigned from both is ambiguous (None)."""
+    args = [a.arg for a in fn.args.posonlyargs + fn.args.args]
+    roles: dict[str, set] = {}
+    if args and args[0] == "self":
+        others = args[1:]
+        for o in others:
+            roles.setdefault(o, set()).add("O")
+        for a in walk_local(fn):
+            if isinstance(a, ast.Assign) and len(a.targets) == 1 and isinstance(a.targets[0], ast.Name):
+                names = {n.id for n in ast.walk(a.value) if isinstance(n, ast.Name)}
+                r = set()
+                if "self" in names:
+                    r.add("S")
+                if names & set(others):
+                    r.add("O")
+                if r:
+                    roles.setdefault(a.targets[0].id, set()).update(r)
+        # a parameter that is only ever re-assigned from itself keeps role O
+    else:
+        for k, a in enumerate(args):
+            roles[a] = {f"P{k}"}
+    return {k: (next(iter(v)) if len(v) == 1 else None) for k, v in roles.items()}
+
+
+def _expected_roles(fn, name):
+    args = [a.arg for a in fn.args.posonlyargs + fn.args.args]
+    if args and args[0] == "self":
+        reflected = name.startswith("__r") or name.startswith("_cohdl_r") and name != "_cohdl_rem_"
+        return ("O", "S") if reflected else ("S", "O")
+    return ("P0", "P1")
+
+
 def run_rule(run, rule_id="C09.c"):
     run.begin(
         rule_id,
@@ -109,6 +146,8 @@ def run_rule(run, rule_id="C09.c"):
             if q == HELPER[1]:
                 continue
             rets = _value_returns(f.node)
+            roles = operand_roles(f.node)
+            want = _expected_roles(f.node, name)
             signed_domain = own in ("Signed", "Integer") or own is None
             exprs = []
             for r in rets:
@@ -119,8 +158,9 @@ def run_rule(run, rule_id="C09.c"):
             construct = key
             if name in MOD_FUNCS:
                 mods = [x for x in exprs if isinstance(x.op, ast.Mod)]
-                ok = len(mods) >= 1 and all((dotted(x.left), dotted(x.right)) == ("lhs", "rhs") for x in mods)
-                run.ob(ok, construct, file=rel, line=f.node.lineno, detail="floor-mod", expected="lhs % rhs", found="; ".join(src(x) for x in mods) or "no % expression")
+                ok = len(mods) >= 1 and all((roles.get(dotted(x.left)), roles.get(dotted(x.right))) == want for x in mods)
+                run.ob(ok, construct, file=rel, line=f.node.lineno, detail="floor-mod", expected=f"<dividend:{want[0]}> % <divisor:{want[1]}>  (S = value of self, O = other operand)",
+                       found="; ".join(f"{src(x)} [{roles.get(dotted(x.left))} % {roles.get(dotted(x.right))}]" for x in mods) or "no % expression")
                 continue
             if signed_domain or helper_calls:
                 # ints in _op: only the branch for two Python ints computes a value itself
@@ -133,18 +173,24 @@ def run_rule(run, rule_id="C09.c"):
                        found=("; ".join(src(x) for x in floor_ops) + " (floors)") if floor_ops else ("helper" if helper_calls else "no helper call"))
                 for c in helper_calls:
                     args = [dotted(a) for a in c.args]
-                    ok = args in (["lhs", "rhs"], ["a", "b"])
-                    run.ob(ok, construct, file=rel, line=c.lineno, detail="helper-operand-order", expected="(dividend, divisor)", found=str(args))
+                    got = tuple(roles.get(a) for a in args)
+                    ok = got == want
+                    run.ob(ok, construct, file=rel, line=c.lineno, detail="helper-operand-order", expected=f"(dividend:{want[0]}, divisor:{want[1]})", found=f"{args} roles {got}")
                 if name in REM_FUNCS:
                     # lhs - rhs * q
                     shapes = [src(r.value) for r in rets if HELPER[1] in src(r.value)]
-                    ok = any(("lhs - rhs * " + HELPER[1] + "(lhs, rhs)") in s or ("a - b * " + HELPER[1] + "(a, b)") in s for s in shapes)
+                    ok = False
+                    for r in rets:
+                        for _n, b in P.find(r.value, f"__d - __v * {HELPER[1]}(__d, __v)"):
+                            if (roles.get(b["__d"]), roles.get(b["__v"])) == want:
+                                ok = True
                     run.ob(ok, construct, file=rel, line=f.node.lineno, detail="remainder-shape", expected="dividend - divisor * truncdiv(dividend, divisor)", found="; ".join(shapes)[:100])
             else:
                 # Unsigned: operands are non-negative where a vector is involved, floor == trunc
                 divs = [x for x in exprs if isinstance(x.op, ast.FloorDiv)]
-                ok = bool(divs) and all((dotted(x.left), dotted(x.right)) == ("lhs", "rhs") for x in divs)
-                run.ob(ok, construct, file=rel, line=f.node.lineno, detail="unsigned-division", expected="lhs // rhs on non-negative operands", found="; ".join(src(x) for x in divs) or "none")
+                ok = bool(divs) and all((roles.get(dotted(x.left)), roles.get(dotted(x.right))) == want for x in divs)
+                run.ob(ok, construct, file=rel, line=f.node.lineno, detail="unsigned-division", expected=f"<dividend:{want[0]}> // <divisor:{want[1]}> on non-negative operands",
+                       found="; ".join(f"{src(x)} [{roles.get(dotted(x.left))} // {roles.get(dotted(x.right))}]" for x in divs) or "none")
     if unknown_idiom is not None and not run.findings:
         raise AnalysisError(unknown_idiom)
     run.end()
@@ -175,7 +221,7 @@ def run_extension_rule(run, rule_id="C09.ext"):
                     if isinstance(n, ast.Assign) and any(isinstance(t, ast.Name) and t.id == arg.id for t in n.targets):
                         defs.append(n.value)
             val = defs[0] if len(defs) == 1 else arg
-            text = src(val)
+            text = P.T(val)
             if own == "Signed":
                 ok = text == f"{base}._value[-1]"
                 exp = f"{base}._value[-1] (sign bit of the extended operand)"
